@@ -542,7 +542,50 @@ fn scenarios(thorough: bool) -> Vec<Scenario> {
     s
 }
 
+/// `--replay <file>`: re-run one recorded schedule twice (must be identical) without the explorer.
+fn replay(path: &str) -> ! {
+    let body: Value = serde_json::from_str(&std::fs::read_to_string(path).unwrap_or_default()).unwrap_or(Value::Null);
+    let rp = &body["replay"];
+    let thorough = rp["tier"].as_str() == Some("thorough");
+    let si = rp["scenario"].as_u64().unwrap_or(0) as usize;
+    let choices: Vec<usize> = rp["choices"].as_array().map(|a| a.iter().map(|x| x.as_u64().unwrap_or(0) as usize).collect()).unwrap_or_default();
+    let scs = Arc::new(scenarios(thorough));
+    if si >= scs.len() {
+        machinery_error("replay: no such scenario");
+    }
+    let run = || {
+        let (scs2, c2) = (scs.clone(), choices.clone());
+        match vh::det::on_fresh_thread(si as u64 + 1, 32 << 20, move || run_sim(run_schedule(&scs2[si], &c2, 600))) {
+            Ok(o) => o,
+            Err(_) => {
+                println!("replay: the execution panicked");
+                println!("VIOLATION property=C03 replay={}", path);
+                std::process::exit(1);
+            }
+        }
+    };
+    let (a, b) = (run(), run());
+    if a.trace != b.trace || format!("{:?}", a.done) != format!("{:?}", b.done) {
+        machinery_error("replay is not deterministic");
+    }
+    println!("scenario {}\n{}", scs[si].label(), a.trace.join("\n"));
+    println!("operations {:?}\nfinal dst {:?} src {:?} other {:?}", a.done, a.final_dst, a.final_src, a.final_other);
+    let v = judge(&scs[si], &a);
+    if v.is_empty() {
+        println!("replay: no violation on this schedule");
+        std::process::exit(0);
+    }
+    for (k, d) in &v {
+        println!("replay: {} {}", k, d);
+    }
+    println!("VIOLATION property=C03 replay={}", path);
+    std::process::exit(1);
+}
+
 pub fn run(cli: &Cli) -> (Value, Vec<Violation>) {
+    if let Some(p) = &cli.replay {
+        replay(p);
+    }
     let thorough = cli.thorough();
     let bound: usize = cli.opt("--deviations").and_then(|s| s.parse().ok()).unwrap_or(if thorough { 3 } else { 2 }).max(1);
     let horizon = 600;
@@ -591,7 +634,7 @@ pub fn run(cli: &Cli) -> (Value, Vec<Violation>) {
                     let mut a = acc.lock().unwrap();
                     a.execs += 1;
                     if a.viol.iter().filter(|v| v.key == "execution-panicked").count() < 1 {
-                        a.viol.push(Violation { key: "execution-panicked".into(), desc: format!("scenario {} prefix {:?}", scs[si].label(), prefix), replay: json!({"scenario": si, "choices": prefix}) });
+                        a.viol.push(Violation { key: "execution-panicked".into(), desc: format!("scenario {} prefix {:?}", scs[si].label(), prefix), replay: json!({"tier": if thorough { "thorough" } else { "quick" }, "scenario": si, "choices": prefix}) });
                     }
                     inflight.fetch_sub(1, Ordering::SeqCst);
                     continue;
@@ -638,7 +681,7 @@ pub fn run(cli: &Cli) -> (Value, Vec<Violation>) {
                 }
                 for (k, d) in viol {
                     if a.viol.iter().filter(|v| v.key == k).count() < 1 {
-                        a.viol.push(Violation { key: k, desc: format!("[{}] choices {:?}: {} || trace: {}", scs[si].label(), out.menus.iter().map(|m| m.1).collect::<Vec<_>>(), d, out.trace.join(" ; ").chars().take(1500).collect::<String>()), replay: json!({"scenario": si, "choices": out.menus.iter().map(|m| m.1).collect::<Vec<_>>()}) });
+                        a.viol.push(Violation { key: k, desc: format!("[{}] choices {:?}: {} || trace: {}", scs[si].label(), out.menus.iter().map(|m| m.1).collect::<Vec<_>>(), d, out.trace.join(" ; ").chars().take(1500).collect::<String>()), replay: json!({"tier": if thorough { "thorough" } else { "quick" }, "scenario": si, "choices": out.menus.iter().map(|m| m.1).collect::<Vec<_>>()}) });
                     }
                 }
                 if a.execs < cap {
